@@ -33,6 +33,9 @@ var namesPlain = map[string]string{"T": "T", "O": "O", "d": "zd", "f": "zf", "e"
 // the spelling "blanks": directory names that begin or end with a blank (legal names; what designates them must not be "tidied")
 var namesBlanks = map[string]string{"T": "T", "O": "O", "d": "zd ", "f": "zf", "e": " ze", "sub": " zsub ", "x": "zx", "l": "zl", "g": "g", "od": "od", "h": "h"}
 
+// the spelling "dots": names that end with one or more dots (legal names too)
+var namesDots = map[string]string{"T": "T", "O": "O", "d": "zd.", "f": "zf.", "e": "ze..", "sub": "zsub.", "x": "zx", "l": "zl.", "g": "g", "od": "od", "h": "h"}
+
 var names = namesPlain
 
 func conc(p []string) string {
@@ -187,6 +190,9 @@ func replayOne(sc *scenario, backend, scratch string) (event, error) {
 	names = namesPlain
 	if sc.Spelling == "blanks" {
 		names = namesBlanks
+	}
+	if sc.Spelling == "dots" {
+		names = namesDots
 	}
 	base, root, cleanup, err := newFs(backend, scratch)
 	if err != nil {
